@@ -97,6 +97,7 @@ func runC20(c *Ctx) {
 
 	// removed-state detection relies on kind-aware pairing (shared with C03-R3)
 	c03Pairing(c, "C20-R1")
+	c03DecisionTable(c, "C20-R1")
 
 	// ---- R2 ----
 	chk := c.MustFunc("C20-R2", "internal/checks.RuleDependencyCheck.Check")
